@@ -25,8 +25,13 @@ PROFILES = {
     'pseudo': dict(pseudo=1.0, history=0.4, row_budget=10, states_per_region=(2, 2), depth=(2, 3), state_internal=0.0, sm_internal=0.0, regions=(1, 3)),
     'intro': dict(depth=(1, 3), regions=(1, 3), completion=0.3, history=0.5, pseudo=0.6, row_budget=10, states_per_region=(2, 3),
                   state_internal=0.2, sm_internal=0.0, scripts=True, visitable=True),
-    'flags': dict(flags=1.0, depth=(1, 3), state_internal=0.0, sm_internal=0.0),
-    'blocking': dict(blocking=1.0, depth=(1, 1), regions=(1, 3), flags=0.5, state_internal=0.0, sm_internal=0.0),
+    'flags': dict(flags=1.0, depth=(1, 3), state_internal=0.0, sm_internal=0.0, scripts=True),
+    'policy_after_entry': dict(policy='after_entry', flags=0.7, depth=(1, 3), pseudo=0.3, row_budget=12, state_internal=0.2, sm_internal=0.0, scripts=True),
+    'policy_after_action': dict(policy='after_action', flags=0.7, depth=(1, 3), pseudo=0.3, row_budget=12, state_internal=0.2, sm_internal=0.0, scripts=True),
+    'policy_after_exit': dict(policy='after_exit', flags=0.7, depth=(1, 3), pseudo=0.3, row_budget=12, state_internal=0.2, sm_internal=0.0, scripts=True),
+    'policy_before': dict(policy='before', flags=0.7, depth=(1, 3), pseudo=0.3, row_budget=12, state_internal=0.2, sm_internal=0.0, scripts=True),
+    'policy_default': dict(policy='default', flags=0.7, depth=(1, 3), pseudo=0.3, row_budget=12, state_internal=0.2, sm_internal=0.0, scripts=True),
+    'blocking': dict(blocking=1.0, depth=(1, 1), regions=(1, 3), flags=0.5, state_internal=0.0, sm_internal=0.0, completion=0.25, scripts=True),
     'queue': dict(scripts=True, depth=(1, 2), regions=(1, 2), completion=0.2, state_internal=0.2, sm_internal=0.0),
     'defer': dict(deferral=1.0, scripts=True, depth=(1, 1), regions=(1, 1), completion=0.0, state_internal=0.0, sm_internal=0.0),
     'throw': dict(scripts=True, depth=(1, 2), regions=(1, 2), completion=0.2, state_internal=0.2, sm_internal=0.0),
@@ -243,8 +248,11 @@ class Gen:
                 ee = m['states'][s]['end_events'][0]
                 if len(m['table']) < MAX_ROWS:
                     m['table'].append(dict(src=s, ev=ee, tgt=reg[0], guard=None, actions=self.actions()))
-            # blocking states need no internal table
+            # blocking states need no internal table and are no completion sources
             m['states'][s].pop('internal', None)
+            m['table'] = [rw for rw in m['table'] if not (rw['src'] == s and rw['ev'] is None)]
+            if m['states'][s]['kind'] == 'terminate':
+                m['table'] = [rw for rw in m['table'] if rw['src'] != s]
 
     def ensure_sub_cycles(self, sp):
         """history needs enter/exit cycles: every submachine gets rows entering it on >= 2 distinct events (for shallow
